@@ -1261,4 +1261,58 @@ Proof.
   - exact Lu.
 Qed.
 
+(* ------------------------------------------------------------------ *)
+(* the statements that carry the composition, for Props *)
+
+(* C02's theorems about one call of varAnd establish the variation contract of the loop model
+   (off_ok, off_invalid_distinct) for the answer "the returned objects with their contents", and the
+   heap after the call is again related to the store extended by that answer *)
+Theorem var_and_contract (h0 : heap) (st : store) inp cxpb mutpb d k0 s' off :
+  (forall k x y, V.ret_distinct (V.ma_r1 (mate_o k x y)) (V.ma_r2 (mate_o k x y))) ->
+  Rel h0 st -> Forall (live st) inp ->
+  V.var_and ltb (mate_at mate_o k0) (mut_at mut_o k0) cxpb mutpb (V.start h0 d) inp = (s', inr off) ->
+  off_ok st inp (contents (V.hp s') off) /\ off_invalid_distinct (contents (V.hp s') off) /\
+  length off = length inp /\ Rel (V.hp s') (add_objs st (contents (V.hp s') off)).
+Proof.
+  intros Md R L H.
+  destruct (var_and_post h0 inp cxpb mutpb d k0 s' off Md (rel_wf _ _ R) (pop_ok_live _ _ _ R L) H) as [VPo Len].
+  destruct (var_post_sim _ _ _ _ _ _ R L VPo) as [O [D [R' _]]]. auto.
+Qed.
+
+Theorem var_or_contract (h0 : heap) (st : store) inp lambda_ cxpb mutpb d k0 s' off :
+  Rel h0 st -> Forall (live st) inp ->
+  V.var_or ltb leb add one (mate_at mate_o k0) (mut_at mut_o k0) lambda_ cxpb mutpb (V.start h0 d) inp = (s', inr off) ->
+  off_ok st inp (contents (V.hp s') off) /\ off_invalid_distinct (contents (V.hp s') off) /\
+  length off = Z.to_nat lambda_ /\ Rel (V.hp s') (add_objs st (contents (V.hp s') off)).
+Proof.
+  intros R L H.
+  destruct (var_or_post h0 inp lambda_ cxpb mutpb d k0 s' off (rel_wf _ _ R) (pop_ok_live _ _ _ R L) H) as [VPo Len].
+  destruct (var_post_sim _ _ _ _ _ _ R L VPo) as [O [D [R' _]]]. auto.
+Qed.
+
+(* generation 0: exactly the members of the caller's list with an invalid fitness are evaluated, in
+   order, with their genotype (each once when they are distinct objects -- the known finding) *)
+Theorem full_gen0_calls h0 (d : list (V.draw T)) pop :
+  finit_ok h0 pop ->
+  let s' := fgen0 evaluate fle (finit h0 d pop) in
+  exists log r,
+    f_calls s' = [log] /\ f_log s' = [r] /\
+    map fst log = filter (invalid_in h0) pop /\
+    Forall (fun c => snd c = V.geno (V.ind_at h0 (fst c))) log /\
+    r_gen r = 0 /\ r_nevals r = length log /\
+    (NoDup (filter (invalid_in h0) pop) -> NoDup (map fst log)).
+Proof.
+  intros Hi. cbv zeta. pose proof (gen0_sim h0 d pop Hi) as SR.
+  destruct (gen0_calls evaluate fle (st_of h0 pop) pop) as [log [r [E1 [E2 [E3 [E4 [E5 [E6 E7]]]]]]]].
+  assert (Ef : invalid_of (st_of h0 pop) pop = filter (invalid_in h0) pop).
+  { unfold invalid_of. apply filter_ext_in. intros u Hu. unfold is_invalid, invalid_in.
+    pose proof (fi_pop _ _ Hi) as Po. unfold V.pop_ok in Po. rewrite Forall_forall in Po.
+    rewrite (st_of_in h0 pop u Hu (Po u Hu)). reflexivity. }
+  rewrite Ef in E3, E7.
+  exists log, r. rewrite (sr_calls _ _ SR), (sr_log _ _ SR).
+  split; [exact E1|]. split; [exact E2|]. split; [exact E3|]. split; [|auto].
+  eapply Forall_impl; [|exact E4]. intros c [i [Si Gi]]. apply st_of_inv in Si. destruct Si as [_ [_ ->]].
+  symmetry. exact Gi.
+Qed.
+
 End Compose.
